@@ -102,6 +102,30 @@ def run(tier, out, model_ok, proof):
                 d[rng.randrange(len(d))] = rng.choice(b"\x01~`$")
             files[n] = bytes(d)
         projects.append(files)
+    # marker faults: a schema body whose fault sits on a line of its own, several lines into the body; the
+    # error has to point at THAT line (in the file that holds it), whatever directive the body belongs to
+    markers = {}
+    def body(k, fault):
+        return '{\n  "ok1": 1,\n  "ok2": "two",\n  %s,\n  "ok3": true\n}' % fault
+    hosts = [
+        ("POST /m%d\n  Request\n%s\n  200 any\n", 4), ("POST /m%d\n  Request\n    Body\n%s\n  200 any\n", 6), ("GET /m%d\n  200\n%s\n", 4),
+        ("GET /m%d\n  200\n    Body\n%s\n", 6), ("GET /m%d\n  Query \"a=1\"\n%s\n  200 any\n", 4), ("GET /m%d\n  200\n    Headers\n%s\n    Body any\n", 6),
+        ("POST /m%d\n  Request\n    Headers\n%s\n    Body any\n  200 any\n", 6), ("TYPE @host%d\n%s\n", 2),
+        ("URL /r%d\n  Protocol json-rpc-2.0\n  Method go\n    Params\n%s\n", 6), ("URL /r%d\n  Protocol json-rpc-2.0\n  Method go\n    Result\n%s\n", 6),
+    ]
+    faults = ['"zzmark": @zznosuchtype', '"zzmark": 5 // {min: 9}', '"zzmark": "x" // {enum: @zznosuchenum}', '"zzmark": 1 // {type: "string"}']
+    for hi, (tmpl, ind) in enumerate(hosts):
+        for fi, fault in enumerate(faults):
+            for nl in (b"\n", b"\r\n"):
+                k = len(projects)
+                btxt = "\n".join(" " * ind + l for l in body(k, fault).split("\n"))
+                doc = ("JSIGHT 0.3\n# marker fault\n\n" + tmpl % (k, btxt)).encode().replace(b"\n", nl)
+                if (hi + fi) % 3 == 0:
+                    files = {"root.jst": b"JSIGHT 0.3" + nl + b"INCLUDE inc/part.jst" + nl, "inc/part.jst": nl + doc.split(nl, 1)[1]}
+                else:
+                    files = {"root.jst": doc}
+                markers[k] = True
+                projects.append(files)
     cases = [treecorr.project_case("e%d" % i, f) for i, f in enumerate(projects)]
     res, crashes = docgen.run_build(cases)
     nerr = 0
@@ -117,7 +141,14 @@ def run(tier, out, model_ok, proof):
         show["error"] = {"file": fname, "index": e["index"], "line": e["line"], "col": e["col"], "quote": bytes.fromhex(e["quote"]).decode("latin1"),
                          "trace": [(bytes.fromhex(a).decode(), b) for a, b in e["trace"]], "msg": docgen.err_text(r)[:100]}
         why, cls = None, "other"
-        if fname not in files:
+        if i in markers and fname in files:
+            data0 = files[fname]
+            ln = data0[:e["index"]].count(b"\n" if b"\r\n" not in data0 else b"\r\n")
+            sep = b"\r\n" if b"\r\n" in data0 else b"\n"
+            the_line = data0.split(sep)[ln] if ln < len(data0.split(sep)) else b""
+            if b"zzmark" not in the_line:
+                why = "the fault is on the line holding \"zzmark\", the error points at index %d (line %r)" % (e["index"], the_line[:50].decode("latin1"))
+        if why is None and fname not in files:
             why = "the error names a file that does not belong to the project: %s" % fname
         else:
             data = files[fname]
